@@ -189,7 +189,7 @@ def cases(draw, tier):
         if have_sib and draw(st.integers(0, 3)) == 0:
             step = dict(step, target="sib")
         hist.append(step)
-    return {"spec": spec, "cfg": cfg, "history": hist, "noise_specs": [flipped(spec), other], "driver_listener": not is_async, "sib_instance_cbs": draw(st.booleans())}
+    return {"spec": spec, "cfg": cfg, "history": hist, "noise_specs": [flipped(spec), other], "driver_listener": not is_async, "sib_instance_cbs": draw(st.booleans()), "sib_late_as_ctor": draw(st.booleans())}
 
 
 def strategy(tier):
